@@ -19,7 +19,13 @@ class Chooser:
 
     def next(self):
         # index-dependent offset: even an all-zero list (Hypothesis' favourite) yields varied choices
-        v = self.ints[self.i % len(self.ints)] + 7 * self.i + (self.i // len(self.ints))
+        # (a fixed integer mixing function of the drawn value and the position - no RNG of our own)
+        x = (self.ints[self.i % len(self.ints)] + 1) * 2654435761 + (self.i + 1) * 40503 * (len(self.ints) + 1)
+        x &= 0xFFFFFFFF
+        x ^= x >> 15
+        x = (x * 2246822519) & 0xFFFFFFFF
+        x ^= x >> 13
+        v = x >> 4
         self.i += 1
         return v
 
@@ -62,12 +68,14 @@ def node_names(draw, n, odd_ok=True):
 def dags(draw, min_nodes=2, max_nodes=5, odd_names=True, allow_isolated=False):
     """A DAG as (nodes_in_insertion_order, edges).  Nodes come in a drawn topological order, every forward
     pair is an edge according to a drawn density class.  Nodes without any edge are dropped unless allowed."""
-    n = draw(st.integers(min_nodes, max_nodes))
+    sizes = list(range(min_nodes, max_nodes + 1))
+    # Hypothesis emits many "all-simplest" examples (first element of every sampled_from): keep that one interesting
+    n = draw(st.sampled_from(sizes[len(sizes) // 2 :] + sizes + sizes[-2:]))
     names = draw(node_names(n, odd_names))
-    dens = draw(st.sampled_from([2, 4, 6, 8]))  # out of 8
+    dens = draw(st.sampled_from([5, 3, 4, 6, 8]))  # out of 8
     ch = draw(choosers())
     edges = []
-    shape = draw(st.sampled_from(["random", "random", "random", "path", "star_out", "star_in", "layers"]))
+    shape = draw(st.sampled_from(["random"] * 8 + ["path", "star_out", "star_in"]))
     if shape == "path":
         edges = [(names[i], names[i + 1]) for i in range(n - 1)]
     elif shape == "star_out":
@@ -112,6 +120,10 @@ def random_st_path(ch, nodes, edges, starts=None, ends=None):
     succ = succ_map(nodes, edges)
     start_pool = sorted(set(srcs) | set(starts or []))
     end_set = set(ends or [])
+    G = nx.DiGraph()
+    G.add_nodes_from(nodes)
+    G.add_edges_from(edges)
+    topo = {v: i for i, v in enumerate(nx.topological_sort(G))}
     v = ch.pick(start_pool)
     path = [v]
     while True:
@@ -119,7 +131,10 @@ def random_st_path(ch, nodes, edges, starts=None, ends=None):
             return path
         if v in end_set and len(path) >= 1 and ch.coin(1, 3):
             return path
-        v = ch.pick(succ[v])
+        if ch.coin():
+            v = min(succ[v], key=lambda x: topo[x])  # bias towards long paths
+        else:
+            v = ch.pick(succ[v])
         path.append(v)
 
 
@@ -179,12 +194,15 @@ GADGETS = ["node", "loop", "two", "node", "tri", "eight", "chord"]
 
 @st.composite
 def cyclic_digraphs(draw, max_skel=4, max_nodes=7, odd_names=True, core_only=True):
-    """Digraph with cycles: a DAG skeleton whose inner nodes are replaced by SCC gadgets with drawn attachment
-    nodes, or a plain random digraph.  With core_only every edge lies on a source->sink walk."""
+    """Digraph with cycles: a DAG skeleton whose nodes are replaced by SCC gadgets (size-budgeted, with pendant
+    sources/sinks where a cyclic gadget sits at a skeleton source/sink), or a plain random digraph with one
+    designated source and sink.  With core_only every edge lies on a source->sink walk."""
     kind = draw(st.sampled_from(["gadget", "gadget", "random"]))
     ch = draw(choosers(64))
     if kind == "gadget":
-        sk_nodes, sk_edges = draw(dags(2, max_skel, False))
+        sk_nodes, sk_edges = draw(dags(2, min(max_skel, max(2, max_nodes // 2)), False))
+        sk_src, sk_snk = sources_sinks(sk_nodes, sk_edges)
+        budget = max_nodes - len(sk_nodes)
         members = {}
         edges = []
         cnt = 0
@@ -199,7 +217,13 @@ def cyclic_digraphs(draw, max_skel=4, max_nodes=7, odd_names=True, core_only=Tru
         for vi, v in enumerate(sk_nodes):
             g = ch.pick(GADGETS)
             if vi == forced and g == "node":
-                g = ch.pick(GADGETS[1:3] + GADGETS[4:])
+                g = ch.pick(["loop", "two", "tri", "eight", "chord"])
+            pend = (1 if v in sk_src else 0) + (1 if v in sk_snk else 0)
+            extra = {"node": 0, "loop": 0, "two": 1, "tri": 2, "eight": 2, "chord": 2}[g] + (pend if g != "node" else 0)
+            if extra > budget:
+                g = "loop" if pend <= budget and g != "node" else "node"
+                extra = pend if g == "loop" else 0
+            budget -= extra
             if g == "node":
                 ms = [fresh()]
             elif g == "loop":
@@ -219,21 +243,14 @@ def cyclic_digraphs(draw, max_skel=4, max_nodes=7, odd_names=True, core_only=Tru
                 edges += [(ms[0], ms[1]), (ms[1], ms[2]), (ms[2], ms[0]), (ms[1], ms[0])]
             members[v] = ms
             names += ms
-        sk_src, sk_snk = sources_sinks(sk_nodes, sk_edges)
-        kinds = {}
-        for v in sk_nodes:
-            ms = members[v]
-            cyclic = any(e[0] in ms for e in edges)
-            if cyclic and v in sk_src:
-                for _ in range(1 + (1 if ch.coin(1, 4) else 0)):
-                    p_ = fresh()
-                    names.insert(0, p_)
-                    edges.append((p_, ch.pick(ms)))
-            if cyclic and v in sk_snk:
-                for _ in range(1 + (1 if ch.coin(1, 4) else 0)):
-                    p_ = fresh()
-                    names.append(p_)
-                    edges.append((ch.pick(ms), p_))
+            if g != "node" and v in sk_src:
+                p_ = fresh()
+                names.insert(0, p_)
+                edges.append((p_, ch.pick(ms)))
+            if g != "node" and v in sk_snk:
+                p_ = fresh()
+                names.append(p_)
+                edges.append((ch.pick(ms), p_))
         for u, v in sk_edges:
             mult = 1 + (1 if ch.coin(1, 4) else 0)
             for _ in range(mult):
@@ -241,22 +258,15 @@ def cyclic_digraphs(draw, max_skel=4, max_nodes=7, odd_names=True, core_only=Tru
                 if e not in edges:
                     edges.append(e)
         nodes = names
-        if len(nodes) > max_nodes:
-            # drop nodes from the middle so that the pendant sources (front) and sinks (back) survive
-            drop = len(nodes) - max_nodes
-            mid = len(nodes) // 2
-            nodes = nodes[: mid - drop // 2] + nodes[mid - drop // 2 + drop :]
-            keep = set(nodes)
-            edges = [e for e in edges if e[0] in keep and e[1] in keep]
         if odd_names:
             new = draw(node_names(len(nodes), True))
             ren = dict(zip(nodes, new))
             nodes = [ren[v] for v in nodes]
             edges = [(ren[u], ren[v]) for u, v in edges]
     else:
-        n = draw(st.integers(3, min(5, max_nodes)))
+        n = draw(st.sampled_from([4, 3, 5, 4, 5][: 5 if max_nodes >= 5 else 2]))
         nodes = draw(node_names(n, odd_names))
-        dens = draw(st.sampled_from([3, 4, 6]))
+        dens = draw(st.sampled_from([4, 3, 6]))
         edges = []
         for i in range(n):
             for j in range(n):
@@ -264,6 +274,18 @@ def cyclic_digraphs(draw, max_skel=4, max_nodes=7, odd_names=True, core_only=Tru
                     continue  # nodes[0] stays a source, nodes[-1] a sink
                 if ch.below(8) < dens:
                     edges.append((nodes[i], nodes[j]))
+        # make every inner node reachable from the source and co-reachable from the sink
+        G = nx.DiGraph()
+        G.add_nodes_from(nodes)
+        G.add_edges_from(edges)
+        for v in nodes[1:-1]:
+            if not nx.has_path(G, nodes[0], v):
+                G.add_edge(nodes[0], v)
+                edges.append((nodes[0], v))
+        for v in reversed(nodes[1:-1]):
+            if not nx.has_path(G, v, nodes[-1]):
+                G.add_edge(v, nodes[-1])
+                edges.append((v, nodes[-1]))
         if not edges:
             edges = [(nodes[0], nodes[-1])]
     if core_only:
@@ -304,8 +326,11 @@ def random_st_walk(ch, nodes, edges, target_len=6, cap=24, starts=None, ends=Non
             break
         if len(walk) < target_len:
             inside = [w for w in succ if scc[w] == scc[v]]
+            nonsink = [w for w in succ if w not in snks]
             if inside and ch.coin(2, 3):
                 succ = inside
+            elif nonsink and ch.coin(3, 4):
+                succ = nonsink
         v = ch.pick(succ)
         walk.append(v)
     return walk
@@ -333,3 +358,246 @@ def planted_walk_flows(draw, max_nodes=6, max_walks=3, wmax=4, odd_names=True):
         u, v = "a", "b"
         kept_nodes, kept_edges, flow, planted = [u, v], [(u, v)], {(u, v): 1}, [([u, v], 1)]
     return {"nodes": kept_nodes, "edges": kept_edges, "flow": flow, "planted": planted, "weight_type": "int"}
+
+
+# =========================================================================================== model cases
+DAG_FD = ["kFlowDecomp", "MinFlowDecomp"]
+CYC_FD = ["kFlowDecompCycles", "MinFlowDecompCycles"]
+DAG_CLASSES = ["kFlowDecomp", "MinFlowDecomp", "kLeastAbsErrors", "kMinPathError", "kPathCover", "MinPathCover"]
+CYC_CLASSES = ["kFlowDecompCycles", "MinFlowDecompCycles", "kLeastAbsErrorsCycles", "kMinPathErrorCycles", "kPathCoverCycles", "MinPathCoverCycles"]
+ALL_CLASSES = DAG_CLASSES + CYC_CLASSES
+COVER = {"kPathCover", "MinPathCover", "kPathCoverCycles", "MinPathCoverCycles"}
+MINCLS = {"MinFlowDecomp", "MinPathCover", "MinFlowDecompCycles", "MinPathCoverCycles"}
+HAS_STARTS_ENDS = {"kLeastAbsErrors", "kMinPathError", "kPathCover", "MinPathCover", "kFlowDecompCycles", "kLeastAbsErrorsCycles", "kMinPathErrorCycles", "kPathCoverCycles", "MinPathCoverCycles"}
+HAS_SCALING = {"kLeastAbsErrors", "kMinPathError", "kLeastAbsErrorsCycles", "kMinPathErrorCycles"}
+INEXACT = HAS_SCALING
+
+# documented optimisation flags per family (class attributes / docs/solver-options-optimizations.md)
+DAG_FLAGS = ["optimize_with_safe_paths", "optimize_with_safe_sequences", "optimize_with_safe_zero_edges",
+             "optimize_with_subpath_constraints_as_safe_sequences", "optimize_with_safety_as_subpath_constraints",
+             "optimize_with_safety_from_largest_antichain"]
+DAG_FD_FLAGS = ["optimize_with_greedy", "optimize_with_flow_safe_paths"]
+MFD_FLAGS = ["use_min_gen_set_lowerbound", "use_min_gen_set_lowerbound_partition_constraints", "optimize_with_guessed_weights",
+             "use_subgraph_scanning_lowerbound", "min_gen_set_remove_sums_of_two"]
+WALK_FLAGS = ["optimize_with_safe_sequences", "optimize_with_safe_sequences_allow_geq_constraints",
+              "optimize_with_safe_sequences_fix_via_bounds", "optimize_with_safe_sequences_fix_zero_edges",
+              "optimize_with_safety_as_subset_constraints", "optimize_with_max_safe_antichain_as_subset_constraints"]
+MFDC_FLAGS = ["use_min_gen_set_lowerbound", "optimize_with_guessed_weights", "add_min_gen_set_to_given_weights"]
+
+
+def flags_for(cls):
+    if cls in DAG_CLASSES:
+        fl = list(DAG_FLAGS)
+        if cls in DAG_FD:
+            fl += DAG_FD_FLAGS
+        if cls == "MinFlowDecomp":
+            fl += MFD_FLAGS
+        return fl
+    fl = list(WALK_FLAGS)
+    if cls == "MinFlowDecompCycles":
+        fl += MFDC_FLAGS
+    return fl
+
+
+@st.composite
+def option_dicts(draw, cls, mode=None):
+    """Optimisation-option dicts over the documented flags: each single flag flipped, all-on, all-off, random."""
+    flags = flags_for(cls)
+    mode = mode or draw(st.sampled_from(["single", "single", "random", "random", "all_off", "all_on", "default"]))
+    if mode == "default":
+        return {}
+    if mode == "all_off":
+        return {f: False for f in flags}
+    if mode == "all_on":
+        return {f: True for f in flags}
+    if mode == "single":
+        f = draw(st.sampled_from(flags))
+        return {f: draw(st.booleans())}
+    sub = draw(st.lists(st.sampled_from(flags), min_size=1, max_size=4, unique=True))
+    return {f: draw(st.booleans()) for f in sub}
+
+
+def _subsequence(ch, seq, contiguous):
+    n = len(seq)
+    if n == 0:
+        return []
+    if contiguous:
+        i = ch.below(n)
+        j = i + 1 + ch.below(n - i)
+        return list(seq[i:j])
+    out = [x for x in seq if ch.coin()]
+    return out or [seq[ch.below(n)]]
+
+
+@st.composite
+def model_cases(draw, classes=None, max_nodes=5, p_node=4, p_se=4, p_ignore=4, p_constr=3, p_opts=0,
+                odd_names=True, noise=True, k_slack=2, weight_types=("int", "float"), p_float_scale=0):
+    """A full model construction: class, planted instance, kwargs.  p_* are '1 in p' odds (0 = never).
+    The result is a JSON case {cls, graph, flow_attr, kw, meta}; meta carries the planted witness."""
+    cls = draw(st.sampled_from(classes or ALL_CLASSES))
+    cyc = cls in CYC_CLASSES
+    ch = draw(choosers(64))
+    one_in = lambda p: p > 0 and ch.below(p) == 0
+    use_se = cls in HAS_STARTS_ENDS and one_in(p_se)
+    # ---- topology + planted routes
+    if cyc:
+        nodes, edges = draw(cyclic_digraphs(max_nodes=max_nodes + 1, odd_names=odd_names))
+    else:
+        nodes, edges = draw(dags(2, max_nodes, odd_names))
+    srcs, snks = sources_sinks(nodes, edges)
+    starts, ends = [], []
+    if use_se:
+        inner_s = [v for v in nodes if v not in srcs]
+        inner_e = [v for v in nodes if v not in snks]
+        if inner_s and ch.coin(2, 3):
+            starts = sorted(set(ch.subset(inner_s, 1, 3)) or {ch.pick(inner_s)})
+        if inner_e and ch.coin(2, 3):
+            ends = sorted(set(ch.subset(inner_e, 1, 3)) or {ch.pick(inner_e)})
+        if ch.coin(1, 6) and srcs:
+            starts = sorted(set(starts) | {srcs[0]})  # declaring an existing source must change nothing
+    wt = draw(st.sampled_from(list(weight_types)))
+    k0 = draw(st.sampled_from([2, 1, 2, 3, 3] if cyc else [3, 1, 2, 2, 3, 4]))
+    planted = []
+    for _ in range(k0):
+        if cyc:
+            r = random_st_walk(ch, nodes, edges, target_len=2 + ch.below(6), cap=12, starts=starts, ends=ends)
+        else:
+            r = random_st_path(ch, nodes, edges, starts=starts, ends=ends)
+        w = 1 + ch.below(4 if cyc else 6)
+        if wt == "float" and not cyc:
+            w = w * 0.25 if ch.coin() else float(w)
+        elif wt == "float":
+            w = float(w)
+        planted.append((r, w))
+    planted = [(r, w) for r, w in planted if len(r) >= 2]
+    if not planted:
+        u, v = edges[0]
+        # a route through the first edge: shortest connection from a source/start and to a sink/end
+        from .oracle.routes import augmented
+
+        G0 = nx.DiGraph()
+        G0.add_nodes_from(nodes)
+        G0.add_edges_from(edges)
+        H0, S0, T0 = augmented(G0, starts, ends)
+        r = nx.shortest_path(H0, S0, u)[1:] + nx.shortest_path(H0, v, T0)[:-1]
+        planted = [(r, 1 if wt == "int" else 1.0)]
+    eflow = {}
+    nflow = {}
+    for r, w in planted:
+        for e in zip(r[:-1], r[1:]):
+            eflow[e] = eflow.get(e, 0) + w
+        for v in r:
+            nflow[v] = nflow.get(v, 0) + w
+    kept_edges = [e for e in edges if e in eflow]
+    used = {x for e in kept_edges for x in e}
+    kept_nodes = [v for v in nodes if v in used]
+    starts = [v for v in starts if v in used]
+    ends = [v for v in ends if v in used]
+    # starts/ends that became real sources/sinks in the union stay declared (harmless)
+    node_mode = one_in(p_node)
+    if cls == "MinFlowDecomp" and (starts or ends):
+        node_mode = True
+    if cls in ("MinFlowDecomp", "MinFlowDecompCycles") and not node_mode:
+        starts, ends = [], []
+    # ---- inexact weights
+    noise_total = 0
+    if noise and cls in INEXACT and ch.coin(2, 3):
+        tgt = nflow if node_mode else eflow
+        for key in sorted(tgt, key=repr):
+            if ch.coin(1, 3):
+                d = ch.pick([-2, -1, 1, 2, 3])
+                nv = max(0, tgt[key] + d)
+                noise_total += abs(nv - tgt[key])
+                tgt[key] = nv
+        if all(v == 0 for v in tgt.values()):
+            k_ = sorted(tgt, key=repr)[0]
+            tgt[k_] = 1 if wt == "int" else 1.0
+    # ---- ignored elements
+    ignore = []
+    if one_in(p_ignore):
+        pool = sorted(nflow if node_mode else eflow, key=repr)
+        ignore = ch.subset(pool, 1, 3)
+        if len(ignore) == len(pool):
+            ignore = ignore[:-1]
+        tgt = nflow if node_mode else eflow
+        for key in ignore:
+            if ch.coin():
+                tgt[key] = ch.below(10) if wt == "int" else ch.below(10) * 0.5
+    # ---- nodes lacking the attribute (node mode) = ignored
+    missing = []
+    if node_mode and cls not in COVER and ch.coin(1, 3):
+        missing = ch.subset([v for v in kept_nodes if v not in ignore], 1, 4)
+        if len(missing) + len(ignore) >= len(kept_nodes):
+            missing = []
+    # ---- error scaling
+    scaling = []
+    if cls in HAS_SCALING and ch.coin(1, 4):
+        pool = sorted(nflow if node_mode else eflow, key=repr)
+        for key in ch.subset(pool, 1, 2):
+            scaling.append([key if node_mode else list(key), ch.pick([0, 0.25, 0.5, 1, 0.5])])
+    # ---- constraints from planted routes
+    constraints = []
+    coverage = 1.0
+    if one_in(p_constr):
+        for _c in range(1 + ch.below(2)):
+            r, _w = ch.pick(planted)
+            if node_mode:
+                sub = _subsequence(ch, r, ch.coin())
+                if cyc:
+                    sub = list(dict.fromkeys(sub))
+                constraints.append(sub)
+            else:
+                es = list(zip(r[:-1], r[1:]))
+                if cyc:
+                    es = list(dict.fromkeys(es))
+                sub = _subsequence(ch, es, ch.coin())
+                constraints.append([list(e) for e in sub])
+        if ch.coin(1, 5):
+            constraints.append(constraints[0])
+        coverage = ch.pick([1.0, 1.0, 1.0, 0.75, 0.5, 0.34])
+    # ---- assemble graph
+    g_nodes, g_edges = [], []
+    for v in kept_nodes:
+        d = {}
+        if node_mode and cls not in COVER and v not in missing:
+            d["flow"] = nflow[v]
+        g_nodes.append([v, d])
+    for e in kept_edges:
+        d = {}
+        if not node_mode and cls not in COVER:
+            d["flow"] = eflow[e]
+        g_edges.append([e[0], e[1], d])
+    kw = {}
+    if cls not in COVER:
+        kw["weight_type"] = wt
+        if node_mode:
+            kw["flow_attr_origin"] = "node"
+    elif node_mode:
+        kw["cover_type"] = "node"
+    if starts:
+        kw["additional_starts"] = starts
+    if ends:
+        kw["additional_ends"] = ends
+    if ignore:
+        kw["elements_to_ignore"] = [x if node_mode else list(x) for x in ignore]
+    if scaling:
+        kw["error_scaling"] = scaling
+    if constraints:
+        kw["subset_constraints" if cyc else "subpath_constraints"] = constraints
+        if coverage != 1.0:
+            kw["subset_constraints_coverage" if cyc else "subpath_constraints_coverage"] = coverage
+    if cls not in MINCLS:
+        kw["k"] = len(planted) + ch.below(k_slack + 1)
+        if cyc and cls in INEXACT:
+            kw["k"] = min(kw["k"], 3)  # walk-model MILPs with k >= 4 routinely need > 30 s even on 5 nodes
+    if p_opts and one_in(p_opts):
+        kw["optimization_options"] = draw(option_dicts(cls))
+    meta = {
+        "planted": [[r, w] for r, w in planted],
+        "k0": len(planted),
+        "noise_total": noise_total,
+        "cyclic": cyc,
+        "node_mode": node_mode,
+        "missing_attr": missing,
+    }
+    return {"cls": cls, "graph": {"nodes": g_nodes, "edges": g_edges}, "flow_attr": "flow", "kw": kw, "meta": meta}
